@@ -161,6 +161,37 @@ func (e *elemEnv) canonCall(c *ssa.CallCommon, depth int) string {
 
 // formatKey: the string constant the block is reached under (switch case), or "default".
 func (e *elemEnv) formatKey(b *ssa.BasicBlock) string {
+	// a boolean setting (useInt) that selects the rendering: "P4=true" / "P4=false"
+	for d := b.Idom(); d != nil; d = d.Idom() {
+		iff, ok := d.Instrs[len(d.Instrs)-1].(*ssa.If)
+		if !ok || d.Succs[0] == d.Succs[1] {
+			continue
+		}
+		cond, pol := iff.Cond, true
+		if u, isU := cond.(*ssa.UnOp); isU && u.Op == token.NOT {
+			cond, pol = u.X, false
+		}
+		par, isPar := cond.(*ssa.Parameter)
+		if !isPar {
+			continue
+		}
+		name, bound := e.bind[par]
+		if !bound || !strings.HasPrefix(name, "P") {
+			continue
+		}
+		for si, t := range d.Succs {
+			if len(t.Preds) == 1 && (t == b || t.Dominates(b)) {
+				return name + "=" + boolStr((si == 0) == pol)
+			}
+		}
+		// reached only by falling through the other arm's return: the complementary value
+		for si, t := range d.Succs {
+			other := d.Succs[1-si]
+			if len(other.Preds) == 1 && !(other == b || other.Dominates(b)) && endsInReturnOnly(other) && (t == b || t.Dominates(b) || true) {
+				return name + "=" + boolStr((si == 0) == pol)
+			}
+		}
+	}
 	for d := b.Idom(); d != nil; d = d.Idom() {
 		iff, ok := d.Instrs[len(d.Instrs)-1].(*ssa.If)
 		if !ok {
@@ -251,7 +282,9 @@ func renderTable(m map[string]map[string]bool) string {
 	sort.Strings(ks)
 	var parts []string
 	for _, k := range ks {
-		parts = append(parts, k+": "+strings.Join(keysOf(m[k]), " | "))
+		vs := keysOf(m[k])
+		sort.Strings(vs)
+		parts = append(parts, k+": "+strings.Join(vs, " | "))
 	}
 	return strings.Join(parts, "; ")
 }
@@ -358,4 +391,28 @@ func ruleElemAgreement(r *Run, p *Prog) {
 	if n < 15 {
 		r.Fail("ELEM", "floor", "-", fmt.Sprintf("only %d scalar/slice appender pairs found in internal/json", n))
 	}
+}
+
+// endsInReturnOnly: every path from b reaches a return without leaving through other code
+// (a guard arm such as `if !useInt { return … }`).
+func endsInReturnOnly(b *ssa.BasicBlock) bool {
+	seen := map[*ssa.BasicBlock]bool{}
+	var walk func(x *ssa.BasicBlock) bool
+	walk = func(x *ssa.BasicBlock) bool {
+		if seen[x] {
+			return true
+		}
+		seen[x] = true
+		if len(x.Succs) == 0 {
+			_, isRet := x.Instrs[len(x.Instrs)-1].(*ssa.Return)
+			return isRet
+		}
+		for _, s := range x.Succs {
+			if !walk(s) {
+				return false
+			}
+		}
+		return true
+	}
+	return walk(b)
 }
